@@ -86,11 +86,45 @@ def _gen_scenario(seed: int, run: int, tier: str, rng: Any) -> dict:
     reader's fetch watermark moves past older unfinished trials; then an *event* hits one
     caching client (failed GetTrials, pickle round trip, nothing); then the older trials
     change and everybody reads again."""
-    kinds = [rng.choice(["cached", "grpc-cached", "grpc-rdb"]), common.weighted(rng, CLIENT_KINDS)]
+    kinds = [rng.choice(["cached", "grpc-cached", "grpc-rdb", "grpc-rdb"]), common.weighted(rng, CLIENT_KINDS)]
     if rng.random() < 0.5:
         kinds.append(common.weighted(rng, CLIENT_KINDS))
     names = ["k%d" % i for i in range(len(kinds))]
     clients: dict[str, dict] = {n: {"kind": k, "ops": []} for n, k in zip(names, kinds)}
+    if rng.random() < 0.3:
+        # delete-and-recreate: a study is deleted by one client, the readers are told so
+        # (KeyError), then its id is re-used by a new study (SQLite re-uses ids)
+        gg = gen.OpGen(rng, client="", deletes=False, getters=False, unknown_ids=False, max_studies=1, max_trials=8, multi_objective=False)
+        w = rng.choice(names)
+        readers0 = [n for n in names if clients[n]["kind"] != "raw"]
+
+        def add0(c: str, phase: int, op: dict) -> None:
+            op = dict(op)
+            op["phase"] = phase
+            clients[c]["ops"].append(op)
+
+        add0(w, 0, {"op": "create_new_study", "directions": ["MINIMIZE"], "name": "old", "as": "S0"})
+        for i in range(rng.randint(2, 4)):
+            add0(rng.choice(names), 1, {"op": "create_new_trial", "study": "S0", "as": "T%d" % i})
+            if rng.random() < 0.7:
+                add0(rng.choice(names), 2, {"op": "set_trial_state_values", "trial": "T%d" % i, "state": "COMPLETE", "values": [cf(gg.objective_value())]})
+        for c in readers0:
+            add0(c, 3, {"op": "read_check", "study": "S0", "filters": [0, 1], "full": rng.random() < 0.5})
+        add0(w, 4, {"op": "delete_study", "study": "S0"})
+        for c in readers0:
+            if rng.random() < 0.7:
+                add0(c, 5, {"op": "read_check", "study": "S0", "filters": [0], "full": False})
+        add0(rng.choice(names), 6, {"op": "create_new_study", "directions": ["MAXIMIZE"], "name": "new", "as": "S1"})
+        for i in range(rng.randint(1, 3)):
+            add0(rng.choice(names), 7, {"op": "create_new_trial", "study": "S1", "as": "N%d" % i})
+            if rng.random() < 0.6:
+                add0(rng.choice(names), 8, {"op": "set_trial_state_values", "trial": "N%d" % i, "state": "COMPLETE", "values": [cf(gg.objective_value())]})
+        for c in readers0:
+            add0(c, 9, {"op": "read_check", "study": "S1", "filters": [0, 1], "full": True})
+        for c_ in clients.values():
+            c_["ops"].sort(key=lambda o: o.get("phase", 0))  # stable: a client works phase by phase
+        cfg0 = {"mode": "clients", "deployment": "mixed", "scenario": "delete-recreate", "p_line": 0.0, "p_seam": rng.choice([0.2, 0.5, 0.8]), "pool": rng.choice([1, 2, 3]), "busy_timeout": 60.0}
+        return {"check": ID, "seed": seed, "run": run, "cfg": cfg0, "clients": clients, "faults": [], "sched": {"seed": rng.getrandbits(48)}}
     writer = rng.choice(names)
     nobj = 1
     ntr = rng.randint(3, 5)
@@ -168,6 +202,8 @@ def _gen_scenario(seed: int, run: int, tier: str, rng: Any) -> dict:
         read_ops(c, 7)
         if rng.random() < 0.5:
             read_ops(c, 7)
+    for c_ in clients.values():
+        c_["ops"].sort(key=lambda o: o.get("phase", 0))
     cfg = {"mode": "clients", "deployment": "mixed", "scenario": True, "p_line": 0.0, "p_seam": rng.choice([0.2, 0.5, 0.8]), "pool": rng.choice([1, 2, 3]), "busy_timeout": 60.0}
     return {"check": ID, "seed": seed, "run": run, "cfg": cfg, "clients": clients, "faults": faults, "sched": {"seed": rng.getrandbits(48)}}
 
@@ -327,6 +363,7 @@ def _run_clients(plan: dict, sim: sched.Sim, ch: sched.Chooser, dep: deploy.Depl
             servers.append(srv)
             storages[n] = srv.new_client(procs[n])
     verdict: list[tuple[str, str]] = []
+    observed_gone: set = set()  # (client, study id) for which the client itself got KeyError
     cur_phase: dict[str, int] = {}
     # phase barriers of scenario plans: an op of phase p starts when all ops of phases < p are done
     phase_total: dict[int, int] = {}
@@ -377,6 +414,11 @@ def _run_clients(plan: dict, sim: sched.Sim, ch: sched.Chooser, dep: deploy.Depl
         writes_since_read[name] = set()
         foreign_delete = any(d != name for d in deleted_by.values())
         tag = "stale-after-foreign-delete" if foreign_delete else "stale"
+        if foreign_delete and kinds[name] == "grpc-rdb" and (name, sid) in observed_gone:
+            # this proxy client (over a non-caching backend) has itself been told that the
+            # study id was gone: its own cache entry must have been dropped then - staleness
+            # now is not the documented "no invalidation on foreign delete"
+            tag = "stale-after-observed-delete"
 
         def bad(what: str, detail: str) -> None:
             if not verdict:
@@ -398,6 +440,7 @@ def _run_clients(plan: dict, sim: sched.Sim, ch: sched.Chooser, dep: deploy.Depl
                     if raw_err is None:
                         bad("get_all_trials", "client raised KeyError, backend has the study")
                         return
+                    observed_gone.add((name, sid))
                     continue
                 except net.SimRpcError as e:
                     sim.count("read_failed_rpc")
